@@ -491,7 +491,7 @@ fn image_is_old_or_new() -> bool {
 }
 
 // ---- C02-Ob2: process kill = any prefix of the file operations of a commit
-// @ob props=C02 tier=quick cap=1200 mem=12 fns=Tx::commit,TxInner::write_data,DBInner::meta,Page::meta,Meta::valid bound="the commit of tx_commit_write_plan; crash after any prefix k of its logged file operations (k symbolic)" unwind=520
+// @ob props=C02 tier=thorough cap=1200 mem=12 fns=Tx::commit,TxInner::write_data,DBInner::meta,Page::meta,Meta::valid bound="the commit of tx_commit_write_plan; crash after any prefix k of its logged file operations (k symbolic)" unwind=520
 #[kani::proof]
 #[kani::unwind(520)]
 fn tx_commit_crash_prefix() {
@@ -635,7 +635,7 @@ macro_rules! fault_harness {
 fault_harness!(tx_commit_fault_00_metadata, 0, 0);
 // @ob props=C11 tier=thorough cap=1200 mem=12 fns=Tx::commit,TxInner::write_data bound="failing call 1: seek to the first dirty page" unwind=520
 fault_harness!(tx_commit_fault_01_seek, 1, 0);
-// @ob props=C11 tier=quick cap=1200 mem=12 fns=Tx::commit,TxInner::write_data,DBInner::meta bound="failing call 2: write of the first dirty page (error)" unwind=520
+// @ob props=C11 tier=thorough cap=1200 mem=12 fns=Tx::commit,TxInner::write_data,DBInner::meta bound="failing call 2: write of the first dirty page (error)" unwind=520
 fault_harness!(tx_commit_fault_02_write, 2, 0);
 // @ob props=C11 tier=thorough cap=1200 mem=12 fns=Tx::commit,TxInner::write_data,DBInner::meta bound="call 2 is a short write of 8 bytes, the next call fails" unwind=520
 fault_harness!(tx_commit_fault_02_short, 2, 8);
@@ -647,7 +647,7 @@ fault_harness!(tx_commit_fault_05_flush, 5, 0);
 fault_harness!(tx_commit_fault_06_sync, 6, 0);
 // @ob props=C11 tier=thorough cap=1200 mem=12 fns=Tx::commit,TxInner::write_data bound="failing call 7: seek to the header slot" unwind=520
 fault_harness!(tx_commit_fault_07_seek, 7, 0);
-// @ob props=C11 tier=quick cap=1200 mem=12 fns=Tx::commit,TxInner::write_data,DBInner::meta bound="failing call 8: write of the header page (error, nothing written)" unwind=520
+// @ob props=C11 tier=thorough cap=1200 mem=12 fns=Tx::commit,TxInner::write_data,DBInner::meta bound="failing call 8: write of the header page (error, nothing written)" unwind=520
 fault_harness!(tx_commit_fault_08_write, 8, 0);
 // @ob props=C11 tier=quick cap=1200 mem=12 fns=Tx::commit,TxInner::write_data,DBInner::meta,Meta::valid bound="call 8 (header page) is a short write of 8 bytes, the next call fails: torn header" unwind=520
 fault_harness!(tx_commit_fault_08_short, 8, 8);
@@ -690,7 +690,7 @@ fn growth_case(hw: u64) {
     }
 }
 
-// @ob props=C16,C02 tier=quick cap=1200 mem=12 fns=Tx::commit,TxInner::write_data,DBInner::resize bound="12-page file whose header records a high-water mark of 12 pages: growth by less than one 8 MiB step" unwind=260
+// @ob props=C16,C02 tier=thorough cap=1200 mem=12 fns=Tx::commit,TxInner::write_data,DBInner::resize bound="12-page file whose header records a high-water mark of 12 pages: growth by less than one 8 MiB step" unwind=260
 #[kani::proof]
 #[kani::unwind(260)]
 fn tx_commit_growth_small() {
@@ -743,7 +743,7 @@ fn tx_commit_strict_mode_accepts() {
     }
 }
 
-// @ob props=C05,C16 tier=quick cap=1800 mem=12 fns=Tx::commit,TxInner::write_data,TxInner::check bound="same file but the header claims 7 pages (page 6 is neither reachable nor free), strict mode on: the self check must refuse, before the header is written" unwind=260
+// @ob props=C05,C16 tier=thorough cap=1800 mem=12 fns=Tx::commit,TxInner::write_data,TxInner::check bound="same file but the header claims 7 pages (page 6 is neither reachable nor free), strict mode on: the self check must refuse, before the header is written" unwind=260
 #[kani::proof]
 #[kani::unwind(260)]
 fn tx_commit_strict_mode_rejects_leak() {
